@@ -5,13 +5,51 @@ package main
 // arguments are concrete (through `natives`), so the model only sees symbolic data.
 
 import (
+	"fmt"
 	"go/types"
+	"os"
 	"strings"
 	"unicode"
 	"unicode/utf8"
 
 	"golang.org/x/tools/go/ssa"
 )
+
+var caseMode = func() string {
+	if v := os.Getenv("GOSX_CASEMODE"); v != "" {
+		return v
+	}
+	return "A"
+}()
+
+// knownASCII reports whether the path condition already implies 0 <= r < 0x80.
+func (m *Machine) knownASCII(t *Term) bool {
+	v, ok := m.path.quick(m.tc.Cmp(OpUlt, t, m.tc.Const(32, 0x80)))
+	return ok && v
+}
+
+// knownLatin1 reports whether the path condition already implies 0 <= r < 0x100.
+func (m *Machine) knownLatin1(t *Term) bool {
+	v, ok := m.path.quick(m.tc.Cmp(OpUlt, t, m.tc.Const(32, 0x100)))
+	return ok && v
+}
+
+// asciiRanges lists the maximal ranges of 0..lim-1 on which f holds.
+func asciiRanges(f func(rune) bool, lim rune) [][2]rune {
+	var out [][2]rune
+	in := false
+	var lo rune
+	for r := rune(0); r <= lim; r++ {
+		v := r < lim && f(r)
+		if v && !in {
+			in, lo = true, r
+		} else if !v && in {
+			in = false
+			out = append(out, [2]rune{lo, r - 1})
+		}
+	}
+	return out
+}
 
 func (m *Machine) runePred(name string, r BV) BoolV {
 	if r.T == nil {
@@ -21,12 +59,104 @@ func (m *Machine) runePred(name string, r BV) BoolV {
 	if t.w != 32 {
 		t = m.tc.Zext(t, 32)
 	}
+	if lim := m.smallLimit(t); lim > 0 {
+		// small exact formula on ASCII / Latin-1 (no table reasoning for the solver)
+		cond := m.tc.ff
+		for _, rg := range asciiRanges(predFunc(name), lim) {
+			cond = m.tc.Or(cond, m.runeIn(BV{T: t, W: 32}, rg[0], rg[1]))
+		}
+		return m.fromTerm(cond).(BoolV)
+	}
 	return m.fromTerm(m.tc.Pred(name, t)).(BoolV)
+}
+
+func (m *Machine) smallLimit(t *Term) rune {
+	if m.knownASCII(t) {
+		return 0x80
+	}
+	if m.knownLatin1(t) {
+		return 0x100
+	}
+	return 0
 }
 
 func (m *Machine) runeFn(name string, r BV) BV {
 	if r.T == nil {
 		return mkInt(32, evalFn32(name, r.C))
+	}
+	if !m.knownASCII(r.T) && m.knownLatin1(r.T) {
+		// Latin-1: group the 256 values by the distance f moves them
+		tc := m.tc
+		f := uniFns[name]
+		res := r.T
+		byDelta := map[int32]bool{}
+		for c := rune(0); c < 0x100; c++ {
+			if d := int32(f(c)) - int32(c); d != 0 {
+				byDelta[d] = true
+			}
+		}
+		for d := range byDelta {
+			d := d
+			cond := tc.ff
+			for _, rg := range asciiRanges(func(c rune) bool { return int32(f(c))-int32(c) == d }, 0x100) {
+				cond = tc.Or(cond, m.runeIn(r, rg[0], rg[1]))
+			}
+			res = tc.Ite(cond, tc.Bin(OpAdd, r.T, tc.Const(32, uint64(uint32(d)))), res)
+		}
+		return m.fromTerm(res).(BV)
+	}
+	// runes the path condition already knows to be fixed points of f
+	if v, ok := m.path.quick(m.tc.Pred(name+"Fixed", r.T)); ok && v {
+		return r
+	}
+	if m.knownASCII(r.T) {
+		tc := m.tc
+		f := uniFns[name]
+		// ASCII: the only moves are A-Z <-> a-z
+		res := r.T
+		for _, rg := range [][2]rune{{'A', 'Z'}, {'a', 'z'}} {
+			d := int32(f(rg[0])) - int32(rg[0])
+			if d != 0 {
+				res = tc.Ite(m.runeIn(r, rg[0], rg[1]), tc.Bin(OpAdd, r.T, tc.Const(32, uint64(uint32(d)))), res)
+			}
+		}
+		return m.fromTerm(res).(BV)
+	}
+	// Outside ASCII: split on "f leaves r unchanged" (a plain range predicate). The common
+	// side then carries no case-mapping term at all; only genuinely moved runes keep one.
+	if caseMode == "A" {
+		return m.fromTerm(m.tc.Fn32(name, r.T)).(BV)
+	}
+	if m.branch(m.fromTerm(m.tc.Pred(name+"Fixed", r.T)).(BoolV), "case-fixed") {
+		return r
+	}
+	if caseMode == "B" {
+		return m.fromTerm(m.tc.Fn32(name, r.T)).(BV)
+	}
+	// Moved runes: split on the distance moved (a few dozen classes, each a range
+	// predicate); the result is then r + delta, so no case-mapping function ever reaches
+	// the solver. The class to try next is read off the model (a recorded choice).
+	f := uniFns[name]
+	for iter := 0; iter < 200; iter++ {
+		var d uint64 = 1 << 62
+		if m.path.pos >= len(m.path.trace) && m.ensureModel() {
+			rv := rune(int32(uint32(m.evalUnder(r.T))))
+			d = uint64(int64(int32(f(rv)) - int32(rv)))
+		}
+		d = m.recordChoice(d)
+		if d == 1<<62 {
+			break
+		}
+		delta := int64(d)
+		if delta == 0 {
+			// the model sits on a fixed rune although "moved" was asserted: refresh it
+			m.path.modelOK = false
+			continue
+		}
+		pn := fmt.Sprintf("%s#D:%d", name, delta)
+		if m.branch(m.fromTerm(m.tc.Pred(pn, r.T)).(BoolV), "case-delta") {
+			return m.fromTerm(m.tc.Bin(OpAdd, r.T, m.tc.Const(32, uint64(uint32(int32(delta)))))).(BV)
+		}
 	}
 	return m.fromTerm(m.tc.Fn32(name, r.T)).(BV)
 }
@@ -100,6 +230,12 @@ func (m *Machine) mapRunes(s Str, fn string) Str {
 	rs, _ := m.runeSpans(s)
 	out := make([]BV, len(rs))
 	for i, r := range rs {
+		if r.T != nil {
+			// Go's own ASCII fast path: decide the class first (then Latin-1)
+			if !m.branch(m.fromTerm(m.tc.Cmp(OpUlt, r.T, m.tc.Const(32, 0x80))).(BoolV), "ascii-class") {
+				m.branch(m.fromTerm(m.tc.Cmp(OpUlt, r.T, m.tc.Const(32, 0x100))).(BoolV), "latin1-class")
+			}
+		}
 		out[i] = m.runeFn(fn, r)
 	}
 	// keep ASCII bytes branch-free: a rune known to be < 0x80 maps within ASCII
@@ -308,7 +444,7 @@ func registerStringIntrinsics(reg func(string, intrinsicFn)) {
 
 	// unicode predicates
 	for name := range uniPreds {
-		if name == "Wide2" || name == "Width0" {
+		if name == "Wide2" || name == "Width0" || name == "Standalone" || strings.HasSuffix(name, "Fixed") {
 			continue
 		}
 		n := name
